@@ -264,8 +264,9 @@ def gen_history(rng, idx, tier):
             if backend == "polars" and kind in ("series", "index"):
                 kind = "dfs"
             spec = gg.schema(kind=kind, backend=backend)
-            if rng.random() < 0.12 and backend == "pandas" and kind == "dfs":
-                spec["columns"].append({"name": "tz", "dtype": "datetime_tz_agnostic", "nullable": False, "unique": False, "coerce": False,
+            if rng.random() < 0.12 and kind == "dfs":
+                spec["columns"].append({"name": "tz", "dtype": "datetime_tz_agnostic", "nullable": False, "unique": False,
+                                        "coerce": backend == "polars" and kernel.derive(rng.getrandbits(16), "tzc").random() < 0.5,
                                         "required": True, "regex": False, "default": None, "checks": [], "parsers": []})
             try:
                 world.build_schema(spec)
@@ -332,7 +333,7 @@ class World:
             f1 = s.fingerprint()
             if f1 != s.fp0:
                 for what in classify(diff_paths(s.fp0, f1, limit=40)):
-                    found.append((f"fp|{what}|op={opname}",
+                    found.append((f"fp|{what}|op={opname}|{s.label.split('>')[0]}",
                                   f"subject {si} ({s.label}) fingerprint changed at {diff_paths(s.fp0, f1)} after op #{op_index} {opname} on subject {touched}"))
             elif s.eq_ok:
                 try:
@@ -831,7 +832,7 @@ def history_tags(hist, upto=None):
             if c.get("regex"):
                 t.add("regex")
             if c.get("dtype") == "datetime_tz_agnostic":
-                t.add("datetime_tz_agnostic")
+                t.add("datetime_tz_agnostic" if s["spec"]["backend"] == "pandas" else "polars_datetime_tz_agnostic")
             if c.get("dtype") == "simint":
                 t.add("custom_dtype")
             for ch in c.get("checks") or []:
